@@ -42,18 +42,31 @@ structure Env where
   hdr : Option Bytes          -- value of the configured real-IP header (non-empty) if any
   remoteHost : Bytes          -- host part of RemoteAddr ("" if SplitHostPort failed)
 
+/-- `net.IP.IsUnspecified` on what `net.ParseIP` returns (the 16-byte form; 4 bytes are accepted as well) -/
+def isUnspecified (ip : Bytes) : Bool :=
+  ip == List.replicate 16 0 || ip == List.replicate 10 0 ++ [255, 255, 0, 0, 0, 0] || ip == [0, 0, 0, 0]
+
+/-- one of the `ip` / `ipv4` / `ipv6` parameters under `AllowIPSpoofing`: present and not the unspecified address
+(0.0.0.0 or ::, which stands for "the address this request comes from", like a zero IP field over UDP — D20) -/
+def spoofParam (env : Env) (ps : List (Bytes × Bytes)) (k : Bytes) : Option (Option Bytes) :=
+  match get ps k with
+  | none => none
+  | some v => match env.parseIP v with
+    | some ip => if isUnspecified ip then none else some (some ip)
+    | none => some none          -- present but unparsable: the request will be rejected
+
 /-- `requestedIP` -/
 def requestedIP (env : Env) (ps : List (Bytes × Bytes)) (opts : ParseOpts) : Option Bytes × Bool :=
-  let spoofed : Option Bytes :=
+  let spoofed : Option (Option Bytes) :=
     if opts.allowIPSpoofing then
-      match get ps kIP with
-      | some v => some v
-      | none => match get ps kIPv4 with
-        | some v => some v
-        | none => get ps kIPv6
+      match spoofParam env ps kIP with
+      | some r => some r
+      | none => match spoofParam env ps kIPv4 with
+        | some r => some r
+        | none => spoofParam env ps kIPv6
     else none
   match spoofed with
-  | some v => (env.parseIP v, true)
+  | some r => (r, true)
   | none =>
     match (if opts.realIPHeaderSet then env.hdr else none) with
     | some h => (env.parseIP h, false)
